@@ -319,8 +319,12 @@ func (m *streamsMap) HandleStreamFrame(f *wire.StreamFrame, rcvTime monotime.Tim
 
 func (m *streamsMap) HandleTransportParameters(p *wire.TransportParameters) {
 	m.supportsResetStreamAt = p.EnableResetStreamAt
-	m.outgoingBidiStreams.EnableResetStreamAt()
-	m.outgoingUniStreams.EnableResetStreamAt()
+	// Streams opened before the peer's transport parameters were known (0-RTT) may only start
+	// using RESET_STREAM_AT if the peer actually enabled the extension.
+	if p.EnableResetStreamAt {
+		m.outgoingBidiStreams.EnableResetStreamAt()
+		m.outgoingUniStreams.EnableResetStreamAt()
+	}
 	m.outgoingBidiStreams.UpdateSendWindow(p.InitialMaxStreamDataBidiRemote)
 	m.outgoingBidiStreams.SetMaxStream(p.MaxBidiStreamNum.StreamID(protocol.StreamTypeBidi, m.perspective))
 	m.outgoingUniStreams.UpdateSendWindow(p.InitialMaxStreamDataUni)
